@@ -29,7 +29,9 @@ if DYN is None:
 EXPLICIT = ["x", "y", "r", "k", "ev", "dis", "foo_bar", "ab"]
 PREFIXES = ["foo", "foo_bar", "fo", "a", "foo_bar_baz", ""]
 NAMES = ["foo", "foo_", "foo_a", "foo_bar_a", "foo_bar_baz_q", "fo", "fox", "f", "a", "ab", "abc",
-         "zzz", "_p", "__d", "x", "y", "r", "k", "ev", "dis", "foo_bar", "foo_barx"]
+         "zzz", "_p", "__d", "x", "y", "r", "k", "ev", "dis", "foo_bar", "foo_barx",
+         # companions of container traits added at run time (<name>_items)
+         "zzz_items", "abc_items", "fox_items"]
 POLICIES = ["int", "str", "float", "any", "readonly", "constant", "event", "disallow", "python"]
 VALUES = [5, "s", 2.5, 7, "t"]
 
@@ -39,10 +41,11 @@ def make_trait(policy):
     return {"int": lambda: Int(1), "str": lambda: Str("d"), "float": lambda: Float(0.5),
             "any": lambda: Any(), "readonly": lambda: ReadOnly, "constant": lambda: Constant(9),
             "event": lambda: Event(), "disallow": lambda: Disallow,
-            "python": lambda: Python}[policy]()
+            "python": lambda: Python,
+            "listint": lambda: __import__("traits.api").api.List(Int)}[policy]()
 
 
-DEFAULTS = {"int": 1, "str": "d", "float": 0.5, "any": None, "constant": 9}
+DEFAULTS = {"int": 1, "str": "d", "float": 0.5, "any": None, "constant": 9, "listint": []}
 
 
 def valid(policy, v):
@@ -52,6 +55,8 @@ def valid(policy, v):
         return type(v) is str, v
     if policy == "float":
         return type(v) in (int, float), float(v) if type(v) in (int, float) else v
+    if policy == "listint":
+        return False, v          # (the value pool holds scalars only)
     return True, v
 
 
@@ -120,6 +125,11 @@ class Prop:
                 op = {"k": "del", "o": o, "name": name}
             elif x < 0.88:
                 op = {"k": "add_trait", "o": o, "name": name, "policy": r.choice(POLICIES)}
+                if r.random() < 0.25:
+                    # a container trait: add_trait brings a companion '<name>_items' along,
+                    # remove_trait takes it away again
+                    op["name"] = r.choice(["zzz", "abc", "fox"])
+                    op["policy"] = "listint"
             elif x < 0.93:
                 op = {"k": "remove_trait", "o": o, "name": name}
             else:
@@ -270,6 +280,11 @@ class Prop:
             if k == "add_trait":
                 # (only names this instance never touched: a read materialises the
                 # default of the rule then in force into the instance dictionary)
+                comp = name + "_items"
+                if op["policy"] == "listint" and (comp in rec["touched"] or comp in rec["itraits"]):
+                    env.end_op()
+                    env.token("add_trait", "skip")
+                    continue
                 if name not in rec["touched"] and name not in rec["itraits"] \
                         and not name.endswith("_"):
                     _, e = sut(o.add_trait, name, make_trait(op["policy"]))
@@ -277,6 +292,9 @@ class Prop:
                         raise Violation("C13.add_trait", "add_trait(%r, %s) raised %r"
                                         % (name, op["policy"], e), i)
                     rec["itraits"][name] = op["policy"]
+                    if op["policy"] == "listint":
+                        rec["itraits"][comp] = "itemsevent"
+                        rec["companions"] = dict(rec.get("companions", {}), **{name: comp})
                 env.end_op()
                 env.token("add_trait", op["policy"])
                 continue
@@ -289,13 +307,19 @@ class Prop:
                     # remove_trait also removes the value from the instance dictionary
                     rec["state"].pop(name, None)
                     rec["touched"].discard(name)
+                    comp = rec.get("companions", {}).pop(name, None)
+                    if comp is not None and comp in rec["itraits"]:
+                        # ... and the companion traits the container trait brought along
+                        del rec["itraits"][comp]
+                        rec["state"].pop(comp, None)
+                        rec["touched"].discard(comp)
                 env.end_op()
                 env.token("remove_trait")
                 continue
             rec["touched"].add(name)
             # ---- expected outcome from the governing policy
             if k == "get":
-                if pol in ("event", "disallow"):
+                if pol in ("event", "disallow", "itemsevent"):
                     want = ("AttributeError",)
                 elif pol == "python":
                     want = ("AttributeError",) if st is UNSET else ("value", st)
@@ -306,10 +330,13 @@ class Prop:
                 else:
                     want = ("value", DEFAULTS[pol] if st is UNSET else st)
                 got_v, e = sut(getattr, o, name)
+                if pol == "listint" and e is None:
+                    got_v = list(got_v)
                 got = ("value", got_v) if e is None else (exc_name(e),)
             elif k == "set":
                 v = VALUES[op["v"] % len(VALUES)]
-                if pol in ("disallow", "constant"):
+                if pol in ("disallow", "constant", "itemsevent"):
+                    # (the items event only takes list-event objects; the pool holds scalars)
                     want = ("TraitError",)
                 elif pol == "readonly":
                     want = ("ok",) if st is UNSET else ("TraitError",)
